@@ -295,6 +295,11 @@ def check_queries(run, res):
     if ob.state is not None and prev_state is not None and ob.state != prev_state:
       res.violate('query-changed-state', {'query': k}, 'op#%d %s moved the chart from %s to %s' % (i, ob.op, prev_state, ob.state))
       return
+    # ... and as it was: the instrumentation flag of the processor is not the query's to change
+    prev_flag = run.steps[i - 1].instrumented if i > 0 else None
+    if i > 0 and prev_flag is not None and ob.instrumented is not None and bool(ob.instrumented) != bool(prev_flag):
+      res.violate('query-changed-flag', {'query': k}, 'op#%d %s changed chart.instrumented from %r to %r' % (i, ob.op, prev_flag, ob.instrumented))
+      return
 
 
 # ------------------------------------------------------------------ C14 / C15
